@@ -1,3 +1,4 @@
+mod c_eeprom;
 mod c_init;
 mod c_pdu;
 mod c_seq;
@@ -25,6 +26,9 @@ fn lookup(property: &str, check: &str) -> Option<Box<CaseFn>> {
             let prop = c_pdu::prop_of(property)?;
             Some(Box::new(move |rs, nonce, replay| c_pdu::case(prop, false, rs, nonce, replay)))
         }
+        ("C12", "eeprom-reads") => Some(Box::new(c_eeprom::c12_case)),
+        ("C13", "hostile-eeprom") => Some(Box::new(c_eeprom::c13_case)),
+        ("C14", "alias-and-writes") => Some(Box::new(c_eeprom::c14_case)),
         ("C09", "init") => Some(Box::new(c_init::case_clean)),
         ("C09", "init-dev-lag") => Some(Box::new(c_init::case_lag)),
         ("C04", "push-programs") => Some(Box::new(c_seq::c04_case)),
@@ -53,6 +57,7 @@ fn main() {
             let tier = args.get(2).map(|s| s.as_str()).unwrap_or("quick");
             c_pdu::run_property(id, tier, seed, workers)
         }
+        id @ ("C12" | "C13" | "C14") => c_eeprom::run(id, args.get(2).map(|s| s.as_str()).unwrap_or("quick"), seed, workers),
         "C09" => c_init::run_c09(args.get(2).map(|s| s.as_str()).unwrap_or("quick"), seed, workers),
         "C04" => c_seq::run_c04(args.get(2).map(|s| s.as_str()).unwrap_or("quick"), seed, workers),
         "C05" => c_seq::run_c05(args.get(2).map(|s| s.as_str()).unwrap_or("quick"), seed, workers),
